@@ -1009,6 +1009,30 @@ pub fn run_case(c: &Value, seed: u64, idx: u64) -> (String, Option<String>) {
                     },
                 }
             },
+            "decode_scalar" => {
+                // a well-formed encoding in which the named scalar slots carry the given 256-bit values (16 limbs of 16 bits, least
+                // significant first): a value or an error, and a value re-encodes to exactly its input
+                let t = u("t");
+                let params = RangeParameters::<P>::init(4, 1, pedersen_std(t)).unwrap();
+                let bl: Vec<Scalar> = (0..t).map(|k| hash_scalar(&[b"ds", &(k as u64).to_le_bytes()])).collect();
+                let cm = params.pc_gens().commit(&Scalar::from(5u64), &bl).unwrap();
+                let st = RangeStatement::init(params, vec![cm], vec![None], None).unwrap();
+                let w = RangeWitness::init(vec![CommitmentOpening::new(5, bl)]).unwrap();
+                let mut rng = ChaCha12Rng::seed_from_u64(77);
+                let mut bytes = RangeProof::<P>::prove_with_rng(&mut Transcript::new(b"ds"), &st, &w, &mut rng).unwrap().to_bytes();
+                for sl in c["slots"].as_array().unwrap() {
+                    let e = sl["e"].as_u64().unwrap() as usize;
+                    for (i, limb) in sl["v"].as_array().unwrap().iter().enumerate() {
+                        let x = limb.as_u64().unwrap() as u16;
+                        bytes[1 + 32 * e + 2 * i] = (x & 0xff) as u8;
+                        bytes[1 + 32 * e + 2 * i + 1] = (x >> 8) as u8;
+                    }
+                }
+                match RangeProof::<P>::from_bytes(&bytes) {
+                    Err(_) => ("err".into(), None),
+                    Ok(p) => ("ok".into(), if p.to_bytes() == bytes { None } else { Some("a decoded value does not re-encode to its input".to_string()) }),
+                }
+            },
             "stmt_forge" => {
                 // a statement edited after construction (its fields are public): the promise list no longer has one entry per
                 // commitment. The independent prover makes the proof most favourable to a verifier that would only look at the
